@@ -227,11 +227,12 @@ func runChain(p preset, seed int64, hist, blocks int) *world {
 	}
 	const nVal, nAcct = 3, 9
 	mbp := uint64(4)
-	net := sim.NewNet(sim.Options{Validators: nVal, Nodes: 1, PoS: true, EpochLength: p.E, MBP: mbp, ExtraAccts: nAcct + 1 - nVal, SkipLogs: true})
+	// the genesis builder stakes the genesis validators with thor.HighStakingPeriod() as configured by the simulator's
+	// genesis (StakingPeriod); the simulator sets the process-global thor config, so the preset is re-applied afterwards
+	net := sim.NewNet(sim.Options{Validators: nVal, Nodes: 1, PoS: true, EpochLength: p.E, MBP: mbp, ExtraAccts: nAcct + 1 - nVal,
+		SkipLogs: true, StakingPeriod: p.HighP})
 	defer net.Close()
-	if thor.EpochLength() != p.E || thor.HayabusaTP() != 0 || thor.LowStakingPeriod() != p.LowP || thor.CooldownPeriod() != p.Cooldown {
-		fail("chain: thor config is not the preset")
-	}
+	applyConfig(p)
 	w := &world{p: p, rng: rand.New(rand.NewSource(seed)), names: map[thor.Address]string{}, enames: map[thor.Address]string{},
 		endOf: map[thor.Address]thor.Address{}, prevStatus: map[thor.Address]uint8{}, prevExitB: map[thor.Address]bool{}}
 	w.names[thor.Address{}] = zeroName
